@@ -3,6 +3,7 @@
     (accepted = the soundness theorem applies to this very output) and, only when a checker rejects, classifies
     the rejection (which pieces exceed K tol, and whether the known step-rule trigger holds on them). *)
 From Coq Require Import ZArith QArith Qround List Bool.
+From CV Require Corr.C09 Geom.Matrix Geom.MatrixProofs.
 From CV Require Import Base.Dy Flat.Curves Flat.Cert Flat.Arc Flat.XMono.
 Import ListNotations.
 Open Scope Q_scope.
@@ -13,6 +14,7 @@ Inductive case03 :=
 | CCirc (a : circ_arc) (tol : Q) (ok : bool) (vs : list pt)
 | CArcCube (e : ellipse) (ok : bool) (cubics : list (list pt))
 | CEll (e : ellipse) (s t : pt) (large sweep : bool) (tol : Q) (ok : bool) (vs : list pt)
+| CXArc (a : Corr.C09.acase)
 | CXMono (ctrl : list pt) (ok : bool) (pieces : list (list pt)) (ts : list Q)
 | CPub (op : Z) (ok : bool) (inp out : list subpath_sum).
 
@@ -68,17 +70,54 @@ Definition judge_bez (B d1 : Q -> pt) (pb : Q -> Q -> Q) (alt : Q -> Q -> bool) 
   let only_alt := negb ends && negb onc && (f =? 0)%Z && (k =? 0)%Z in
   [ (bit ends 2 + bit onc 4 + bit (0 <? f)%Z 8 + bit (0 <? k)%Z 16 + bit (negb only_alt) 32 + bit only_alt 256)%Z; n; k; f; ratio_milli2 m tol ].
 
+(** XMonotone of one elliptical arc (xmonotoneEllipticArc): the returned arcs judged against the ellipse with the orientation
+    predicates of Corr/C09 — same ellipse and direction, chained from start to end, cut points on the ellipse and advancing, the
+    large-arc flag of every piece consistent with its end points — and x-monotone: neither of the two points of the ellipse with
+    a vertical tangent (in the plane of the unit circle: the directions +-(rx cos phi, -ry sin phi)) lies strictly inside a piece.
+    flags: 1 tie (generated arc), 2 same ellipse/direction, 4 chain, 8 on ellipse/advancing, 16 large flag, 32 not x-monotone,
+    128 panic *)
+Definition strictly_in (sweep : bool) (u v e : Geom.Matrix.qpt) : bool :=
+  if sweep then Qltb 0 (Geom.MatrixProofs.qcross u e) && Qltb 0 (Geom.MatrixProofs.qcross e v)
+  else Qltb 0 (Geom.MatrixProofs.qcross v e) && Qltb 0 (Geom.MatrixProofs.qcross e u).
+Definition judge_xarc (c : Corr.C09.acase) : list Z :=
+  let open := Corr.C09.aPanic c in
+  if open then [128%Z; 0%Z; 0%Z; 0%Z; 0%Z] else
+  let sl := 1 # 1073741824 in
+  let u := Corr.C09.circ c (Corr.C09.aS c) in let v := Corr.C09.circ c (Corr.C09.aE c) in
+  let gen_ok := Corr.C09.on_unit sl u && Corr.C09.on_unit sl v in
+  let ps := Corr.C09.aPieces c in
+  let same := forallb (fun p => Corr.C09.ap_same p && Bool.eqb (Corr.C09.ap_sweep p) (Corr.C09.aSweep c)) ps in
+  let le := Corr.C09.last_end (Corr.C09.aS c) ps in
+  (* the last piece ends at the arc's end point up to rounding: xmonotoneEllipticArc recomputes it from the end angle *)
+  let chain := Corr.C09.chained (Corr.C09.aS c) ps && close le (Corr.C09.aE c) sl && negb (Nat.eqb (length ps) 0) in
+  let onell := forallb (fun p => Corr.C09.on_unit sl (Corr.C09.circ c (Corr.C09.ap_e p))) ps && Corr.C09.advancing c (Corr.C09.aS c) ps in
+  let larges := forallb (Corr.C09.large_ok c) ps in
+  let e := (Corr.C09.aRx c * Corr.C09.aCs c, - (Corr.C09.aRy c * Corr.C09.aSn c)) in
+  let ne := (- fst e, - snd e) in
+  let mono := forallb (fun p => let a := Corr.C09.circ c (Corr.C09.ap_s p) in let b := Corr.C09.circ c (Corr.C09.ap_e p) in
+                                negb (strictly_in (Corr.C09.aSweep c) a b e) && negb (strictly_in (Corr.C09.aSweep c) a b ne)) ps in
+  [ (bit (negb gen_ok) 1 + bit (negb same) 2 + bit (negb chain) 4 + bit (negb onell) 8 + bit (negb larges) 16 + bit (negb mono) 32)%Z;
+    Z.of_nat (length ps); 0%Z; 0%Z; 0%Z ].
+
 Definition judge (c : case03) : list Z :=
   match c with
   | CQuad [p0; p1; p2] tol ok vs ts wit =>
       judge_bez (quadB_f p0 p1 p2) (quad_d1 p0 p1 p2) (quad_pb p0 p1 p2) (fun _ _ => false) p0 p2
                 (chk_flat_quad p0 p1 p2 ts vs tol Kquad slack) Kquad tol ok vs ts wit
   | CCube [p0; p1; p2; p3] tol ok vs ts wit =>
-      judge_bez (cubeB_f p0 p1 p2 p3) (cube_d1 p0 p1 p2 p3) (cube_pb2 p0 p1 p2 p3 (sqr (Kcube * tol))) (fun _ _ => false) p0 p3
-                (chk_flat_cube p0 p1 p2 p3 ts vs tol Kcube slack) Kcube tol ok vs ts wit
+      let r := judge_bez (cubeB_f p0 p1 p2 p3) (cube_d1 p0 p1 p2 p3) (cube_pb2 p0 p1 p2 p3 (sqr (Kcube * tol))) (fun _ _ => false) p0 p3
+                (chk_flat_cube p0 p1 p2 p3 ts vs tol Kcube slack) Kcube tol ok vs ts wit in
+      (* the known finding (a piece inside which the tangent turns by >= 90 degrees) does not cover a whole cubic replaced by a
+         chord shorter than the tolerance: strokeCubicBezier always subdivides a loop whose end points (nearly) coincide *)
+      match r, ts with
+      | fl :: rest, [_; _] =>
+          if (0 <? Z.land fl 16)%Z && Qltb (dist2 p0 p3) (sqr tol) then (Z.lor (Z.land fl (Z.lnot 16)) 8) :: rest else r
+      | _, _ => r
+      end
   | CCirc a tol ok vs => judge_circ a tol Kcirc slack ok vs
   | CArcCube e ok cubics => judge_arccube e ok cubics
   | CEll e s t large sweep tol ok vs => judge_ellflat e s t large sweep tol Kcirc slack ok vs
+  | CXArc a => judge_xarc a
   | CXMono ctrl ok pieces ts => judge_xmono ctrl slack ok pieces ts
   | CPub op ok inp out => judge_pub op ok inp out
   | _ => [64%Z; 0%Z; 0%Z; 0%Z; 0%Z]
